@@ -420,6 +420,22 @@ class PKey:
         except UnicodeDecodeError:
             return None
 
+    @staticmethod
+    def _get_sig_blob(msg):
+        """
+        Read the signature blob, the final field of an SSH signature message.
+
+        Returns ``None`` unless the rest of ``msg`` is exactly one
+        length-prefixed string. `.Message` pads short reads with zero bytes
+        and ignores trailing data; neither must make a signature acceptable
+        (OpenSSH rejects both).
+        """
+        size = msg.get_int()
+        blob = msg.get_remainder()
+        if len(blob) != size:
+            return None
+        return blob
+
     @classmethod
     def from_private_key_file(cls, filename, password=None):
         """
